@@ -12,7 +12,7 @@ Definition ws0 : summary nat := fresh nat wit_joint wit_kw (Some [(["m"; "centre
 (* the hypotheses of C12_summary_history_irrelevant are met, with reads on both sides of the child's creation *)
 Example ws_history :
   coherent nat ws0 /\ Forall (is_read nat) [ORead nat; OInstance nat] /\ Forall (is_read nat) [ORead nat] /\
-  (exists c, run nat wit_bin true ([ORead nat; OInstance nat] ++ OSub nat wit_child :: [ORead nat]) ws0 = Some c /\
+  (exists c, run nat wit_bin wit_un true ([ORead nat; OInstance nat] ++ OSub nat wit_child :: [ORead nat]) ws0 = Some c /\
              max_vector nat c = Some [4; 7] /\ means_vector nat c = Some [5; 8]) /\
   (exists c0, subsamples nat true ws0 wit_child = Some c0 /\ max_vector nat c0 = Some [4; 7]).
 Proof.
@@ -34,6 +34,6 @@ Proof. intros c0 H. vm_compute in H. inversion H; subst. vm_compute. reflexivity
 
 (* C12_child_instance_own: the joint instance is read first, the child's instance is still its own *)
 Example ws_instance_own :
-  exists c, run nat wit_bin true ([ORead nat; OInstance nat] ++ OSub nat wit_child :: [OInstance nat; ORead nat]) ws0 = Some c /\
-            instance_value nat wit_bin c = Some (IObj "G" [("centre", IV 4); ("sigma", IV 7)]).
+  exists c, run nat wit_bin wit_un true ([ORead nat; OInstance nat] ++ OSub nat wit_child :: [OInstance nat; ORead nat]) ws0 = Some c /\
+            instance_value nat wit_bin wit_un c = Some (IObj "G" [("centre", IV 4); ("sigma", IV 7)]).
 Proof. eexists; vm_compute; split; reflexivity. Qed.
